@@ -99,8 +99,10 @@ def worker_main(prop_id, tier, wid, nworkers, verif_seed, budget, max_cases,
     k = 0
     per_sig = collections.Counter()
     last_dump = time.time()
+    idx_fn = getattr(prop, 'case_index', None)
+    rep['custom'] = []
     while k < max_cases and time.time() - t0 < budget:
-        index = wid + k * nworkers
+        index = idx_fn(wid, k, nworkers) if idx_fn else wid + k * nworkers
         k += 1
         seed = case_seed(verif_seed, prop_id, index)
         rng = random.Random(seed)
@@ -113,6 +115,8 @@ def worker_main(prop_id, tier, wid, nworkers, verif_seed, budget, max_cases,
             case = prop.gen(rng, tier)
             case['index'] = index
             case['verif_seed'] = verif_seed
+            case['wid'] = wid
+            case['nworkers'] = nworkers
             v = prop.run(case)
         except Exception as e:
             import traceback
@@ -143,6 +147,9 @@ def worker_main(prop_id, tier, wid, nworkers, verif_seed, budget, max_cases,
                 rep['extra'][f'{kx}={vx}'] += 1
         if v.aborted:
             rep['aborted'][v.aborted] += 1
+        cu = getattr(v, 'custom', None)
+        if cu is not None:
+            rep['custom'].append(cu)
         tb = getattr(v, 'table', None)
         if tb:
             rep['table'].update(tb)
